@@ -29,6 +29,8 @@ def space(tier: str) -> Tuple[List[str], List[Tuple[str, Sequence[int]]]]:
     i_tr = [add(e) for e in tr]
     fams: List[Tuple[str, Any]] = []
     fams.append(("single_d1", [(i,) for i in i_d1]))
+    i_long = [add(e) for e in V.LONG_CONTAINERS]
+    fams.append(("single_long", [(i,) for i in i_long] + [(i_long[0], i_d1[0]), (i_long[0], i_long[1])]))
     fams.append(("single_d2", [(i,) for i in i_d2]))
     fams.append(("pair_d1", itertools.combinations(i_d1, 2)))
     fams.append(("triple_reps", itertools.combinations(i_tr, 3)))
